@@ -11,7 +11,13 @@
 
    What IS proved, over models tied to the Go code by the correspondence run and over tables
    regenerated from /repo on every run (Gen/HtTables_gen.v):
-     C06_mel_roundtrip               MEL coder, every event sequence, through the stuffed bytes
+     C06_mel_roundtrip               MEL coder (MELEncoder/MELDecoder), every event sequence, through the stuffed bytes
+     C06_ojph_mel_roundtrip          the live MEL pair (ojphMELWriter + terminateOJPHMELVLC fusion /
+                                     ojphMELReader with its 8-run look-ahead), every event sequence
+     C06_scup_fits_validated_block   Scup <= 4079 for every code-block the encoder accepts since the
+                                     repair of finding F20 (width*height <= 4096), from the proved MEL
+                                     size bound and the table maxima; cleanup-pass structure as named
+                                     hypotheses
      C06_uvlc_exhaustive / _pair     U-VLC: the whole range, spec coder and live pair coder
      C06_vlc_tables_inverse_exhaustive, C06_vlc_encode_decode   CxtVLC over the regenerated tables
      C06_scup_roundtrip              Scup locator
@@ -20,7 +26,7 @@
                                      class of finding F12), C06_sample_word_roundtrip
    The 5/3 transform and RCT inverses are C20; the T2 layer is shared with C04. *)
 From V Require Import Common.Base Gen.HtTables_gen HT.HtMel HT.HtUvlc HT.HtVlc HT.HtLevels
-  HT.HtProofsTables HT.HtProofsLevels HT.HtProofsMel.
+  HT.HtProofsTables HT.HtProofsLevels HT.HtProofsMel HT.HtProofsMelOjph.
 
 (* MEL: for any list of events of any length the decoder fed the encoder's terminated byte
    string (byte stuffing, closing of a pending run, padding) returns the events. *)
@@ -28,6 +34,37 @@ Theorem C06_mel_roundtrip : forall evs : list bool,
   mel_decode_bytes (length evs) (mel_encode_bytes evs) = Some evs.
 Proof. exact mel_roundtrip. Qed.
 Print Assumptions C06_mel_roundtrip.
+
+(* the live pair: any events, any VLC writer state at termination (fused last byte or not), any
+   bytes after the MEL segment (at least the two that carry Scup) *)
+Theorem C06_ojph_mel_roundtrip : forall evs vt vu more rest,
+  0 <= vt < 256 -> Forall (fun b => 0 <= b < 256) rest -> (2 <= length rest)%nat ->
+  ojph_mel_decode_bytes (length evs)
+    (fst (ojph_mel_terminate (melw_encode_all evs) vt vu more) ++ rest) = evs.
+Proof. exact ojph_mel_roundtrip. Qed.
+Print Assumptions C06_ojph_mel_roundtrip.
+Example C06_ojph_mel_nonvacuous :
+  ojph_mel_terminate (melw_encode_all [false; false; true; false]) 15 4 true = ([223], None) /\
+  ojph_mel_terminate (melw_encode_all [false; false; true; false]) 15 4 false = ([208], Some 15).
+Proof. vm_compute. split; reflexivity. Qed.
+
+(* size of the MEL segment: at least 7 coded bits per byte, at most 6 bits per event *)
+Theorem C06_ojph_mel_bytes_bound : forall evs vt vu more, 0 <= vt < 256 ->
+  (7 * length (fst (ojph_mel_terminate (melw_encode_all evs) vt vu more)) <= 6 * length evs + 9)%nat.
+Proof. exact ojph_mel_bytes_bound. Qed.
+Print Assumptions C06_ojph_mel_bytes_bound.
+
+(* the Scup budget of a validated code-block (hypotheses named in HtProofsMelOjph) *)
+Theorem C06_scup_fits_validated_block : forall (Q nev melbytes vlcbits vlcbytes : Z),
+  0 <= Q <= 1024 -> 0 <= nev <= Q + (Q + 1) / 2 -> 7 * melbytes <= 6 * nev + 9 ->
+  0 <= vlcbits <= 4 + 7 * Q + 16 * ((Q + 1) / 2) -> 7 * (vlcbytes - 2) <= vlcbits ->
+  melbytes + vlcbytes <= 4079.
+Proof. exact scup_fits_validated_block. Qed.
+Print Assumptions C06_scup_fits_validated_block.
+Example C06_scup_budget_nonvacuous :
+  0 <= 1024 <= 1024 /\ 0 <= 1536 <= 1024 + (1024 + 1) / 2 /\ 7 * 1317 <= 6 * 1536 + 9 /\
+  0 <= 15364 <= 4 + 7 * 1024 + 16 * ((1024 + 1) / 2) /\ 7 * (2196 - 2) <= 15364 /\ 1317 + 2196 = 3513.
+Proof. vm_compute. repeat split; congruence. Qed.
 
 (* U-VLC, spec-style coder: the whole range 1..96 the 3+5+4-bit format expresses, any continuation *)
 Theorem C06_uvlc_exhaustive : forall u rest, 1 <= u <= 96 ->
